@@ -281,6 +281,21 @@ type ForestOpts struct {
 	Validity func(r *Rng) *ValSpec
 	Manip    bool
 	JSONMix  bool
+	Bulk     int // >0: one entity in Bulk is large - padding without meaning (file size) or one very large extension (content size)
+}
+
+// bulkExt: one extension whose value alone is larger than every buffer size one might think of
+// (8, 16, 64 KiB): a long list of names or an opaque blob.
+func bulkExt(r *Rng) ExtSpec {
+	if r.Bool() {
+		n := r.Range(150, 2200)
+		names := make([]any, n)
+		for i := range names {
+			names[i] = map[string]any{"type": "dns", "name": fmt.Sprintf("host-%04d.bulk.example", i)}
+		}
+		return ExtSpec{Kind: "subjectAlternativeName", Content: rawJSON(names)}
+	}
+	return ExtSpec{Kind: "custom", Oid: "1.3.9.9.9", Raw: "!binary:" + b64(r.Bytes(r.Range(6, 90)*1024))}
 }
 
 type Forest struct {
@@ -364,6 +379,14 @@ func genForest(r *Rng, o ForestOpts) *Forest {
 		}
 		if o.Manip && r.Chance(1, 5) {
 			e.Manip = &ManipSpec{Version: ip(r.Intn(4))}
+		}
+		if o.Bulk > 0 && r.Chance(1, o.Bulk) {
+			if r.Bool() {
+				e.Bulk = r.Range(5, 200)
+				e.Style = r.Intn(40)
+			} else {
+				e.Exts = append([]ExtSpec{bulkExt(r)}, e.Exts...)
+			}
 		}
 		f.Ents = append(f.Ents, e)
 	}
